@@ -3,8 +3,7 @@
 
     python3 design.d/selftest/c08_selftest.py NAME      (names: keys of M below, or revert-fix)
 
-Copies the private repo copy /tmp/w-cache (= /repo HEAD + verif hook +
-fixes/C08-receipts-block-lock.diff) to /tmp/w-cache-m, applies ONE textual edit
+Copies /repo (hook and fixes integrated) to /tmp/w-cache-m, applies ONE textual edit
 (or reverse-applies the fix), runs `VERIF_REPO=/tmp/w-cache-m bin/check C08
 --tier quick`, prints verdict, mismatch / oracle-failure counts and the reported
 failing input, deletes the copy.  Results: design.d/C08.md."""
@@ -24,6 +23,20 @@ M = {
 		return nil, fmt.Errorf("cache get: %w", err)
 	}
 
+'''),
+ "assign-before-error": ("jrpc2/client.go", '''	blocks, err := f(ctx, url, start, limit)
+	if err != nil {
+		return nil, fmt.Errorf("cache get: %w", err)
+	}
+
+	seg.d = blocks
+	seg.done = true
+''', '''	var err error
+	seg.d, err = f(ctx, url, start, limit)
+	seg.done = seg.d != nil
+	if err != nil {
+		return nil, fmt.Errorf("cache get: %w", err)
+	}
 '''),
  "prune-maxread-gt": ("jrpc2/client.go", "if v.nreads >= c.maxreads {", "if v.nreads > c.maxreads {"),
  "head-maxread-gt": ("jrpc2/client.go", "if nh.nreads >= nh.maxreads {", "if nh.nreads > nh.maxreads {"),
@@ -75,7 +88,7 @@ M = {
 name = sys.argv[1]
 dst = "/tmp/w-cache-m"
 shutil.rmtree(dst, ignore_errors=True)
-shutil.copytree("/tmp/w-cache", dst, ignore=shutil.ignore_patterns(".git", ".scratch"))
+shutil.copytree("/repo", dst, ignore=shutil.ignore_patterns(".git", ".scratch"))
 if name == "revert-fix":
     r = subprocess.run(["patch", "-R", "-p1", "-i", "/verif/fixes/C08-receipts-block-lock.diff"], cwd=dst, capture_output=True, text=True)
     assert r.returncode == 0, r.stdout + r.stderr
